@@ -154,7 +154,10 @@ func (s *objectStore) flush(db *DB) (err error) {
 }
 
 type DB struct {
-	l       sync.RWMutex
+	l sync.RWMutex
+	// sl protects the lazy loading of schemas, which
+	// happens in methods only holding l for reading
+	sl      sync.Mutex
 	ctx     context.Context
 	cancel  context.CancelFunc
 	root    string
@@ -296,6 +299,10 @@ func (db *DB) safeCountPendingAsyncW(of Object) (n int) {
 
 func (db *DB) schema(of Object) (s *Schema, err error) {
 	var ok bool
+
+	// several readers may need to load the same schema at the same time
+	db.sl.Lock()
+	defer db.sl.Unlock()
 
 	if s, ok = db.schemas[stype(of)]; ok {
 		db.startAsyncWritesRoutine(s)
